@@ -310,6 +310,21 @@ func genMavenManifest(rt *rapid.T, u []Pkg, mode string) Manifest {
 		if chance(rt, l+".test", 1, 5) {
 			d.Scope = "test"
 		}
+		if mode == "update" && d.V == t && chance(rt, l+".offlist", 1, 8) {
+			// a declared version the registry does not list: another spelling of a listed
+			// version, or a version of its own
+			switch n := strings.Count(t, "."); {
+			case !isPre(t) && n == 1 && chance(rt, l+".spell", 1, 2):
+				d.V = t + ".0"
+			case !isPre(t) && n == 2 && strings.HasSuffix(t, ".0") && chance(rt, l+".spell", 1, 2):
+				d.V = strings.TrimSuffix(t, ".0")
+			case !isPre(t):
+				d.V = t + ".7"
+			}
+			if hasVersion(p, d.V) {
+				d.V = t
+			}
+		}
 		if d.V == t && chance(rt, l+".prop", 1, 4) {
 			// version through a property; now and then a property another dependency already uses
 			shared := false
@@ -389,7 +404,14 @@ func genMavenManifest(rt *rapid.T, u []Pkg, mode string) Manifest {
 		// keep at least one requirement in the project itself
 		pom.Deps, parent.Deps = parent.Deps[:1], parent.Deps[1:]
 	}
-	return Manifest{Pom: pom, Parent: parent}
+	m := Manifest{Pom: pom, Parent: parent}
+	if parent != nil {
+		m.ParentDir = draw(rt, "parentdir", "", "", "", "mono@2")
+	}
+	if len(pom.Mgmt) == 0 {
+		pom.EmptyMgmt = chance(rt, "emptymgmt", 1, 6)
+	}
+	return m
 }
 
 // installed resolves the generated manifest with the deps.dev resolver (harness-driven) and
@@ -617,14 +639,35 @@ func genOpts(rt *rapid.T, w *World, maxUpgrades []int, plain, conc bool) Opts {
 	if len(w.Vulns) > 0 && chance(rt, "hasignore", 1, 6) {
 		o.Ignore = []string{w.Vulns[rapid.IntRange(0, len(w.Vulns)-1).Draw(rt, "ignore")].ID}
 	}
-	if len(w.Vulns) > 1 && chance(rt, "hasexplicit", 1, 6) {
+	if len(w.Vulns) > 1 && chance(rt, "hasexplicit", 1, 4) {
 		for i, v := range w.Vulns {
-			if chance(rt, fmt.Sprintf("explicit%d", i), 1, 2) {
+			if chance(rt, fmt.Sprintf("explicit%d", i), 2, 3) {
 				o.Explicit = append(o.Explicit, v.ID)
 			}
 		}
+		// duplicate records (GHSA/CVE style): a listed record carries the id of a separate,
+		// non-listed record as an OSV alias
+		if len(o.Explicit) > 0 && len(o.Explicit) < len(w.Vulns) && chance(rt, "explicit.recordalias", 1, 2) {
+			var out []int
+			for i, v := range w.Vulns {
+				listed := false
+				for _, e := range o.Explicit {
+					listed = listed || e == v.ID
+				}
+				if !listed {
+					out = append(out, i)
+				}
+			}
+			n := out[rapid.IntRange(0, len(out)-1).Draw(rt, "explicit.recordalias.n")]
+			x := o.Explicit[rapid.IntRange(0, len(o.Explicit)-1).Draw(rt, "explicit.recordalias.x")]
+			for i := range w.Vulns {
+				if w.Vulns[i].ID == x {
+					w.Vulns[i].Aliases = append(w.Vulns[i].Aliases, w.Vulns[n].ID)
+				}
+			}
+		}
 		// now and then the list names a record by an OSV alias instead of its id
-		if chance(rt, "explicit.alias", 1, 2) {
+		if chance(rt, "explicit.alias", 1, 3) {
 			i := rapid.IntRange(0, len(w.Vulns)-1).Draw(rt, "explicit.aliasof")
 			al := "CVE-" + w.Vulns[i].ID
 			w.Vulns[i].Aliases = append(w.Vulns[i].Aliases, al)
@@ -656,7 +699,7 @@ func genWorld(rt *rapid.T, kinds []string, maxUpgrades []int, plain, conc bool) 
 	case "update":
 		w.Sys, w.Mode = "maven", "update"
 	}
-	motif := draw(rt, "motif", 0, 0, 0, 0, 0, 0, 0, 0, 1, 2, 3, 4, 5, 6, 7)
+	motif := draw(rt, "motif", 0, 0, 0, 0, 0, 0, 0, 0, 0, 1, 2, 3, 4, 5, 6, 7, 8)
 	switch {
 	case w.Sys == "npm" && motif == 4:
 		motif = 5
